@@ -538,7 +538,8 @@ class LdiLoAvrRelocation(Relocation):
     field = "k"
 
     def calc(self, sym_value, reloc_value):
-        imm8 = wrap_negative(sym_value, 16) & 0xFF
+        value = wrap_negative(sym_value, 16, allow_unsigned=True)
+        imm8 = value & 0xFF
         return imm8
 
 
@@ -561,7 +562,8 @@ class LdiHiAvrRelocation(Relocation):
     field = "k"
 
     def calc(self, sym_value, reloc_value):
-        imm8 = (wrap_negative(sym_value, 16) >> 8) & 0xFF
+        value = wrap_negative(sym_value, 16, allow_unsigned=True)
+        imm8 = (value >> 8) & 0xFF
         return imm8
 
 
